@@ -59,19 +59,26 @@ def copy (st : Store) (i : Nat) : Store × Nat :=
   let r := copyF (st.length + 1) st [] i
   (r.1, r.2.2)
 
-/-- `a.subsumes(b)` -/
-def subsumesF : Nat → Store → Nat → Nat → Bool
-  | 0, _, _, _ => false
-  | f+1, st, a, b =>
+/-- `a.subsumes(b, already_seen)` (after the repair: a part of `a` that is reached a second time —
+a shared part — must correspond to the very same part of `b`); returns the verdict and the updated
+`already_seen` association -/
+def subsumesF : Nat → Store → List (Nat × Nat) → Nat → Nat → Bool × List (Nat × Nat)
+  | 0, _, seen, _, _ => (false, seen)
+  | f+1, st, seen, a, b =>
     let ca := deref st a
     let cb := deref st b
-    if (get st ca).value ≠ (get st cb).value then false else
-    (get st ca).content.all fun fc =>
-      match lookupC fc.1 (get st cb).content with
-      | none => false
-      | some y => subsumesF f st fc.2 y
+    match seen.find? (·.1 = ca) with
+    | some e => (decide (e.2 = cb), seen)
+    | none =>
+      let seen1 := seen ++ [(ca, cb)]
+      if (get st ca).value ≠ (get st cb).value then (false, seen1) else
+      (get st ca).content.foldl (fun (acc : Bool × List (Nat × Nat)) fc =>
+        if !acc.1 then acc else
+        match lookupC fc.1 (get st cb).content with
+        | none => (false, acc.2)
+        | some y => subsumesF f st acc.2 fc.2 y) (true, seen1)
 
-def subsumes (st : Store) (a b : Nat) : Bool := subsumesF (st.length + 1) st a b
+def subsumes (st : Store) (a b : Nat) : Bool := (subsumesF (st.length + 1) st [] a b).1
 
 structure Grammar where
   prods : List FProd
